@@ -472,7 +472,9 @@ def rules(tier):
             # C19-ca: getattr(file_input, 'num_encoding_error', 0): the counter of skipped lines is always recorded as 0
             ('C19.R11', _shared_rule('plumbing', 'defaulted_getattr')),
             # C19-da: the training reader opened with errors='replace' - undecodable lines are trained on as U+FFFD and not counted
-            ('C19.R13', _shared_rule('plumbing', 'decode_error_policy'))]
+            ('C19.R13', _shared_rule('plumbing', 'decode_error_policy')),
+            # C19-eb: the first password of pass 1 consumed by a preview
+            ('C19.R16', _shared_rule('plumbing', 'who_may'))]
 
 
 META = {
